@@ -72,6 +72,13 @@ Theorem C08_returns : forall r, rreach (mkO true true) (mkG true true true true 
   (ph r <> PReturned -> rsteps (mkO true true) (mkG true true true true true true) r <> []).
 Proof. exact run_returns. Qed.
 
+(* non-vacuity of the two theorems above: a run in which a solicitation is being answered when a link event
+   cancels the group; the transmission completes, every member returns, the final RA is sent, Run returns *)
+Example C08_example_run :
+  exists r, rrun (mkO true true) (mkG true true true true true true) rinit [1; 1; 1; 0; 0; 4; 1; 0; 0; 1; 0; 0; 0; 0; 0; 0]%nat = Some r /\
+            ph r = PReturned /\ gc (grp r) = true /\ all_done (grp r) = true.
+Proof. eexists. split; [vm_compute; reflexivity|]. repeat split. Qed.
+
 (* what each piece is needed for: with the scheduler not waiting for its workers (the repaired
    defect 224e990), or with either ordering of Run missing, a state is reachable in which the final
    RA is in flight together with another transmission *)
